@@ -22,6 +22,25 @@ func Entry(s string, p []byte, n int) {
 	badLoop(p)
 	goodSum(s, s)
 	badSum(s, s)
+	goodAfterLoop(s)
+	badAfterLoop(s)
+}
+
+// induction over the loop header: n <= len(s) holds on entry and on the back edge
+func goodAfterLoop(s string) string {
+	n := 0
+	for n < len(s) && s[n] == ' ' {
+		n++
+	}
+	return s[:n]
+}
+
+func badAfterLoop(s string) string {
+	n := 0
+	for n <= len(s) && n < 100 {
+		n++
+	}
+	return s[:n]
 }
 
 func badIndex(s string) byte { return s[3] }
